@@ -74,9 +74,33 @@ def gen_spell(tier, rng):
             inp["a"] = {"array": nested(rng, shape, pool or [-2, -1, 0, 1, 2, 3]), "dtype": dt}
         if f in ("amax", "amin", "argmax", "argmin"):
             inp["a"] = {"poly": rand_poly(rng, shape=shape, maxterms=2, maxexp=2, pool=[-3, -1, 1, 2, 5, 7, 11])}
+        if rng.random() < 0.12 and "poly" in inp["a"] and f not in ("amax", "amin", "argmax", "argmin"):
+            # a CONSTANT polynomial array that still carries several indeterminate names (e.g. a slice of a multivariate array):
+            # a shortcut through plain numbers would lose the names in one spelling and not in the other
+            from .gen import nested
+            names = rng.choice([["q0", "q1"], ["q0", "q1", "q2"], ["q1", "q10"]])
+            inp["a"] = {"poly": {"names": names, "exponents": [[0] * len(names)], "coefficients": [nested(rng, shape, pool or [-2, 1, 2, 3])],
+                                 "dtype": dt, "retain": True}}
         yield inp
-    # comparisons with a plain unsigned array on the left (reflected operator) against a polynomial of the same unsigned type
+    # every function on a few constant arrays that carry several names (`poly ** 2` reaches numpy.square, numpy.power(poly, 2) does not)
     from .gen import nested
+    for f in UNARY + BINARY:
+        if f in ("amax", "amin", "argmax", "argmin"):
+            continue
+        for _ in range(count(tier, 1, 4)):
+            shape = rng.choice([(2,), (2, 2)])
+            names = rng.choice([["q0", "q1"], ["q0", "q1", "q2"], ["q1", "q10"]])
+            dt = rng.choice(["int64", "float64"])
+            const = lambda: {"poly": {"names": names, "exponents": [[0] * len(names)], "coefficients": [nested(rng, shape, [-2, 1, 2, 3])],
+                                      "dtype": dt, "retain": True}}
+            inp = {"f": f, "a": const()}
+            if f in BINARY:
+                inp["b"] = {"num": 2} if f == "power" else const() if rng.random() < 0.5 else \
+                    {"poly": rand_poly(rng, shape=shape if f != "outer" else (2,), maxterms=2, maxexp=2, dtype=dt)}
+                if f == "outer":
+                    inp["a"]["poly"]["coefficients"] = [nested(rng, (2,), [-2, 1, 2, 3])]
+            yield inp
+    # comparisons with a plain unsigned array on the left (reflected operator) against a polynomial of the same unsigned type
     for f in ("greater", "greater_equal", "less", "less_equal"):
         for _ in range(count(tier, 4, 30)):
             dt = rng.choice(["uint8", "uint16", "uint64"])
@@ -86,7 +110,7 @@ def gen_spell(tier, rng):
 
 
 @check("C08", "spellings.agree", gen_spell, functions=("numpoly.ndpoly.__array_ufunc__", "numpoly.ndpoly.__array_function__"),
-       note="bounded: 48 registered functions x operands of shape (2,),(3,),(2,2); numpy.f, numpoly.f, operator, method and "
+       note="bounded: 48 registered functions x operands of shape (2,),(3,),(2,2) (an eighth of them constant arrays that carry 2-3 names); numpy.f, numpoly.f, operator, method and "
             "ufunc.reduce/accumulate spellings must return the same type, shape, dtype, names and values")
 def spellings(inp):
     import numpoly
